@@ -141,7 +141,9 @@ func runInProcess(m *Monitor, r *evid.Run, id, tier string, seed uint64, only, n
 				if i >= n {
 					return
 				}
-				if (only >= 0 && i != only) || i%nshards != shard {
+				// cases are dealt to shards by a hash of their index, so that periodic heavy classes
+				// (every 10th, every 25th case) do not all land in the same shard
+				if (only >= 0 && i != only) || int((uint32(i)*2654435761)>>9)%nshards != shard {
 					continue
 				}
 				if journal != nil {
